@@ -85,7 +85,8 @@ impl<Octets> UncertainName<Octets> {
     fn is_slice_absolute(
         mut slice: &[u8],
     ) -> Result<bool, UncertainDnameError> {
-        if slice.len() > Name::MAX_LEN {
+        let total_len = slice.len();
+        if total_len > Name::MAX_LEN {
             return Err(UncertainDnameErrorEnum::LongName.into());
         }
         loop {
@@ -98,6 +99,11 @@ impl<Octets> UncertainName<Octets> {
                 }
             }
             if tail.is_empty() {
+                // A relative name can only be 254 octets long since there
+                // needs to be room for the root label.
+                if total_len > 254 {
+                    return Err(UncertainDnameErrorEnum::LongName.into());
+                }
                 return Ok(false);
             }
             slice = tail;
